@@ -184,6 +184,7 @@ Proof.
     rewrite (phase_done _ p (cl_done _ (closed_set_boot C a (KLive false) K))) in H. injection H as <- _. apply (keep_e3 C); auto.
   - destruct (nth_error (c_boots C) a) as [[[p rid'] [|pend|]]|]; try (injection H as <- _; auto).
     rewrite (phase_done _ p (cl_done _ (closed_set_boot C a KDead K))) in H. destruct pend; injection H as <- _; apply (keep_e3 C); auto.
+  - (* EResend *) rewrite Cc in H. injection H as <- _. auto.
 Qed.
 
 (* close() establishes E1 and E3 *)
